@@ -100,3 +100,18 @@ Example C07_offset_loop_concrete :
   let '(_, _, edges) := Polyface3D__verts_faces_edges_from_boundary (mkV3 0 0 0 :: mkV3 1 0 0 :: mkV3 0 1 0 :: nil) (mkV3 0 0 1) 6 in
   last edges (0, 0)%Z = (11, 9)%Z.
 Proof. vm_compute. reflexivity. Qed.
+
+From LBG Require Import Base QGeom G0_vec G1_shapes.
+From Coq Require Import QArith Morphisms.
+
+(* the faces of a moved solid are the moved faces: Face3D.move carries the plane with Plane.move: the moved plane (generated Plane.move) keeps its axes, so a 2D point cached in the plane frame maps through the MOVED plane onto the
+   moved 3D point, and a moved point keeps its 2D coordinates *)
+From LBG Require Import C06_plane C02_planes C03_planemove.
+Theorem C07_cached_plane_coordinates_survive_a_move : forall qsqrt (sqrt_proper : Proper (Qeq ==> Qeq) qsqrt) (sqrt_one : (qsqrt 1 == 1)%Q) p m,
+  frame_ok p ->
+  (forall q, Plane_xy_to_xyz (Plane_move qsqrt p m) q =3= Point3D_move (Plane_xy_to_xyz p q) m) /\
+  (forall r, Plane_xyz_to_xy (Plane_move qsqrt p m) (Point3D_move r m) =2= Plane_xyz_to_xy p r).
+Proof.
+  intros qsqrt sp so p m F. split; [intros q; apply cached_2d_point_maps_to_the_moved_point; assumption | intros r; apply moved_point_keeps_its_2d_coordinates; assumption].
+Qed.
+Print Assumptions C07_cached_plane_coordinates_survive_a_move.
